@@ -22,6 +22,9 @@ if REPO not in sys.path:
     sys.path.insert(0, REPO)
 
 from geneticengine.random.sources import RandomSource, NativeRandomSource  # noqa: E402
+from geneticengine.grammar.metahandlers.ints import IntRange, IntList  # noqa: E402,F401
+from geneticengine.grammar.metahandlers.lists import ListSizeBetween  # noqa: E402,F401
+from geneticengine.grammar.metahandlers.vars import VarRange  # noqa: E402,F401
 
 
 # ------------------------------------------------------------------------------------------------
@@ -223,10 +226,6 @@ def snapshot(v, _depth=0, _seen=None):
 def make_family():
     """Returns a list of (name, classes, start symbol, description).  Every member is a fresh set of real
     dataclasses; fields cover base types, abstract types, lists, unions, tuples and annotated types."""
-    from geneticengine.grammar.metahandlers.ints import IntRange, IntList
-    from geneticengine.grammar.metahandlers.lists import ListSizeBetween
-    from geneticengine.grammar.metahandlers.vars import VarRange
-
     fams = []
     g = globals()
 
